@@ -27,7 +27,8 @@ RULE = ("random system bounds/exclusion zone x 1-6 proposals (priorities with ti
         "bound/inside the zone/outside the system bounds, bounds None/compatible/incompatible/inside the zone), "
         "arrival histories = permutations + stale replacements + None/bounds-only recomputations + expiry patterns. "
         "distinct = canonical case JSON; non-trivial = >=2 proposals and >=2 distinct histories executed")
-REQUIRED_BUCKETS = ["conflicting-set", "conflict-free-set", "zone-straddling-bounds", "all-None-proposals",
+REQUIRED_BUCKETS = ["pool-handle-tier(proposals as BatteryPool.propose_* builds them)", "two-handles-with-the-same-name-and-priority",
+                    "conflicting-set", "conflict-free-set", "zone-straddling-bounds", "all-None-proposals",
                     "ties", "expiry-drops-some", "stale-replaced", "zone-present", "target-on-zone-edge",
                     "two-groups-share-actors", "max-age:60s", "max-age:other", "tiny-nonzero-preference",
                     "actor-tier(expiry through the power manager)"]
@@ -42,6 +43,8 @@ def budget(tier: str) -> dict[str, Any]:
 
 
 def gen(rng: Any, tier: str, i: int) -> Any:
+    if rng.random() < 0.04:
+        return _gen_handles(rng)
     if rng.random() < 0.03:
         # "proposals older than the maximum age stop counting" as the power manager wires it: the real
         # PowerManagingActor with regular and operating-point actors, long silences, clean-up timer (C11's driver/oracle)
@@ -125,7 +128,159 @@ def _run_history(order: list[int], props: list[dict[str, Any]], sb: Any, hr: ran
     return None if t is None else t.as_watts()
 
 
+def _gen_handles(rng: Any) -> dict[str, Any]:
+    """Proposals as actors really make them: through BatteryPool handles (name, priority) and propose_*()."""
+    nh = rng.choice([2, 2, 3, 4])
+    handles = [[rng.choice([None, "actor", "actor", "other"]), rng.choice([0, 1, 1, 5])] for _ in range(nh)]
+    sys, excl = pm.gen_sys(rng)
+    span = max(abs(sys[0]), abs(sys[1]), 10.0)
+    steps = []
+    for _ in range(rng.randint(2, 8)):
+        h = rng.randrange(nh)
+        meth = rng.choice(["power", "charge", "discharge"])
+        lo = hi = None
+        if meth == "power":
+            w = rng.choice([None, 0.0, round(rng.uniform(-1.2, 1.2) * span, 1)])
+            if rng.random() < 0.4:
+                lo, hi = sorted([round(rng.uniform(-1.0, 0.2) * span, 1), round(rng.uniform(-0.2, 1.0) * span, 1)])
+                if w is not None:
+                    w = min(max(w, lo), hi)  # (a preferred power outside the proposal's own bounds is refused)
+        else:
+            w = rng.choice([None, 0.0, round(rng.uniform(0.0, 1.2) * span, 1)])
+        steps.append([h, meth, w, lo, hi, rng.choice([0.0, 0.0, 1.0, 20.0, 30.5, 45.0, 61.0])])
+    return {"kind": "pool-handles", "handles": handles, "sys": sys, "excl": excl, "steps": steps,
+            "final_wait": rng.choice([0.0, 0.0, 30.0, 61.0, 100.0])}
+
+
+async def _drive_handles(case: dict[str, Any], out: dict[str, Any]) -> None:
+    import asyncio
+    from datetime import timedelta
+    from unittest.mock import MagicMock
+
+    from frequenz.channels import Broadcast
+    from frequenz.quantities import Power
+
+    from frequenz.sdk import timeseries
+    from frequenz.sdk._internal._channels import ChannelRegistry
+    from frequenz.sdk.timeseries.battery_pool import BatteryPool
+    from frequenz.sdk.timeseries.battery_pool._battery_pool_reference_store import BatteryPoolReferenceStore
+
+    from .. import fakes
+
+    loop = asyncio.get_event_loop()
+    comps, conns = fakes.battery_topology([([11], [111]), ([12], [112])])
+    fakes.install_connection_manager(comps, conns)
+    status_ch = Broadcast(name="battery-status", resend_latest=True)
+    pm_ch = Broadcast(name="pm-requests")
+    rx = pm_ch.new_receiver(limit=100)
+    store = BatteryPoolReferenceStore(
+        channel_registry=ChannelRegistry(name="vf"), resampler_subscription_sender=Broadcast(name="rs").new_sender(),
+        batteries_status_receiver=status_ch.new_receiver(limit=1), power_manager_requests_sender=pm_ch.new_sender(),
+        power_manager_bounds_subscription_sender=Broadcast(name="pb").new_sender(),
+        power_distribution_results_fetcher=MagicMock(), min_update_interval=timedelta(seconds=0.2), batteries_id={11, 12})
+    pools = [BatteryPool(pool_ref_store=store, name=n, priority=p, set_operating_point=False) for n, p in case["handles"]]
+    sb = pm.mk_sysbounds(case["sys"], case["excl"])
+    alg = pm.new_matryoshka(60.0)
+    log = out["log"]
+    for h, meth, w, lo, hi, dt in case["steps"]:
+        pw = None if w is None else Power.from_watts(w)
+        t_call = loop.time()
+        if meth == "power":
+            await pools[h].propose_power(pw, bounds=timeseries.Bounds(None if lo is None else Power.from_watts(lo),
+                                                                       None if hi is None else Power.from_watts(hi)))
+        else:
+            await getattr(pools[h], "propose_" + meth)(pw)
+        got = []
+        while rx._q:  # noqa: SLF001
+            got.append(rx.consume())
+        log.append({"h": h, "t": t_call, "proposals": got})
+        for pr in got:
+            alg.calculate_target_power(pr.component_ids, pr, sb, True)
+        if dt:
+            await asyncio.sleep(dt)
+        alg.drop_old_proposals(loop.time())
+    if case["final_wait"]:
+        await asyncio.sleep(case["final_wait"])
+    alg.drop_old_proposals(loop.time())
+    out["t_end"] = loop.time()
+    out["ids"] = frozenset({11, 12})
+    t = alg.calculate_target_power(out["ids"], None, sb, True) if out["ids"] in alg._component_buckets else None  # noqa: SLF001
+    out["target"] = None if t is None else t.as_watts()
+    await store.stop()
+
+
+def _check_handles(case: dict[str, Any], rec: Any) -> None:
+    from ..vloop import LoopMonitor, run_virtual
+
+    rec.bucket("pool-handle-tier(proposals as BatteryPool.propose_* builds them)")
+    out: dict[str, Any] = {"log": []}
+    run_virtual(lambda: _drive_handles(case, out), monitor=LoopMonitor())
+    handles = case["handles"]
+    if len({(n, p) for n, p in handles if n is not None}) < len([1 for n, _ in handles if n is not None]):
+        rec.bucket("two-handles-with-the-same-name-and-priority")
+    # (a) one slot per actor: what identifies a live proposal, (priority, source_id), is the same for all proposals
+    # of a handle and different between handles
+    key_of: dict[int, Any] = {}
+    for e in out["log"]:
+        rec.count("propose_calls_observed")
+        if len(e["proposals"]) != 1:
+            rec.violation("propose-call-did-not-send-exactly-one-proposal", {"handle": e["h"], "sent": len(e["proposals"])})
+            return
+        pr = e["proposals"][0]
+        k = (pr.priority, pr.source_id)
+        if key_of.setdefault(e["h"], k) != k:
+            rec.violation("actor-changes-identity-between-proposals", {"handle": e["h"], "keys": [key_of[e["h"]], k]})
+            return
+        if pr.priority != handles[e["h"]][1] or pr.component_ids != out["ids"]:
+            rec.violation("proposal-carries-another-priority-or-component-set",
+                          {"handle": handles[e["h"]], "priority": pr.priority, "components": sorted(pr.component_ids)})
+            return
+    owners: dict[Any, int] = {}
+    for h, k in key_of.items():
+        if owners.setdefault(k, h) != h:
+            rec.violation("two-actors-share-one-live-proposal-slot",
+                          {"handles": [handles[owners[k]], handles[h]], "priority_and_source_id": list(k)})
+            return
+    # (b) the target at the end is the one of the latest proposal per handle that is at most 60 s old *by the loop
+    # clock at the call* (the harness's own reading), computed by a fresh algorithm object from proposals the harness
+    # builds itself from the call arguments
+    sb = pm.mk_sysbounds(case["sys"], case["excl"])
+    latest: dict[int, Any] = {}
+    for e, st in zip(out["log"], case["steps"]):
+        latest[e["h"]] = (e["t"], st)
+    fresh = pm.new_matryoshka(60.0)
+    fresh.calculate_target_power(out["ids"], pm.mk_proposal({"src": "zz-none", "prio": -99, "pref": None, "lo": None,
+                                                             "hi": None, "t": out["t_end"]}, cid=out["ids"]), sb, True)
+    live = []
+    for h, (t, st) in sorted(latest.items()):
+        if out["t_end"] - t > 60.0:
+            continue
+        _, meth, w, lo, hi, _dt = st
+        pref = w if meth != "discharge" or w is None else -w
+        live.append(h)
+        fresh.calculate_target_power(out["ids"], pm.mk_proposal(
+            {"src": key_of[h][1], "prio": handles[h][1], "pref": pref, "lo": lo, "hi": hi, "t": t}, cid=out["ids"]), sb, True)
+    if len(live) < len(latest):
+        rec.bucket("pool-handle-proposal-expired")
+    exp = fresh.calculate_target_power(out["ids"], None, sb, True)
+    exp_w = None if exp is None else exp.as_watts()
+    got = out["target"]
+    rec.count("handle_histories_checked")
+    if not live and got is None:
+        pass
+    elif got is None or exp_w is None or not abs(got - exp_w) <= 1e-6:
+        rec.violation("target-differs-from-the-live-proposals-of-the-handles",
+                      {"handles": handles, "steps": case["steps"], "live_handles": live, "t_end": out["t_end"],
+                       "target": got, "fresh_with_live_only": exp_w,
+                       "creation_times": [[e["t"], e["proposals"][0].creation_time] for e in out["log"]]})
+    rec.nontrivial(len(key_of) >= 2)
+    rec.observed({"handles": handles, "target": got, "live": live})
+
+
 def check(case: dict[str, Any], rec: Any) -> None:
+    if case.get("kind") == "pool-handles":
+        _check_handles(case, rec)
+        return
     if case.get("kind") == "actor-expiry":
         from . import c11
 
